@@ -9,6 +9,14 @@ from .interp import Frame, Closure, BoundMethod, is_sym, contains_sym, MUTATORS
 from .exprs import PyList, PyDict
 
 
+def _mro_names(cls):
+    out = set()
+    for k in getattr(cls, '__mro__', ()):
+        if k is not object:
+            out.update(vars(k))
+    return out
+
+
 class StmtMixin:
     def exec_block(self, stmts, fr):
         for s in stmts:
@@ -366,6 +374,11 @@ class StmtMixin:
     def ex_For(self, s, fr):
         it = self.ev(s.iter, fr)
         it = self.unwrap(it, s)
+        if type(it).__name__ == 'VStruct' and getattr(it, 'pycls', None) is not None and '__iter__' in _mro_names(it.pycls):
+            # iteration protocol of a repo class: `for x in obj` is `for x in obj.__iter__()`; the call is modular (checked
+            # against the contract of __iter__, which also carries the method's effects on obj); the iterator it returns is
+            # read as the sequence the contract denotes
+            it = self.unwrap(self.call_method(it, '__iter__', [], None, s), s)
         sym_seqs = self.symbolic_iter(it)
         if sym_seqs is None:
             items = self.concrete_iter(it, s)
